@@ -196,7 +196,7 @@ func qeQueued(workers int) string {
 	run.C.Deliver(subject, "_INBOX.u1", []byte(`{"query":"a=1"}`))
 	time.Sleep(10 * time.Millisecond)
 	run.C.Deliver(subject, "_INBOX.u2", []byte(`{"query":"a=2"}`)) // received well inside the duration
-	time.Sleep(qeDuration + 60*time.Millisecond)                    // the duration passes while the first callback still runs
+	time.Sleep(qeDuration + 60*time.Millisecond)                   // the duration passes while the first callback still runs
 	close(release)
 	select {
 	case <-nilCh:
